@@ -69,7 +69,7 @@ Definition v_stale : lfile :=
 
 Definition vf_ok : Purity.vflags := Purity.mkv false false true true.
 
-Definition touch_all (reset : bool) : touch := mktouch (fun _ => true) (fun _ => reset) (fun _ j => Z.of_nat j + 1).
+Definition touch_all (reset : bool) : touch := mktouch (fun _ _ => true) (fun _ => reset) (fun _ j => Z.of_nat j + 1).
 Definition share_none : share := mkshare (fun _ => None) (fun _ _ => false) (fun _ => true).
 
 (* the consolidated / segmented batches reach every entry; [reset]: the batches are mixed IAT batches *)
@@ -77,7 +77,7 @@ Definition lab (reset : bool) : labels :=
   mklab (fun _ _ _ => v_built) (fun _ _ => v_built) (fun _ _ => vf_ok) (fun _ => vf_ok) (fun _ => vf_ok)
         (fun _ => touch_all false) (fun _ => touch_all reset) (fun _ => share_none)
         (fun v _ => v) (fun v _ => v) (fun v i => lsetid v i) (fun v i => lsetid v i) (fun v i => lsetid v i)
-        (fun _ => Offsets.mkoff true Offsets.Checking 12345678).
+        (fun _ => Offsets.mkoff true Offsets.Checking 12345678) (fun _ _ => true).
 
 Definition traces (v : lfile) : list (list Z) :=
   map (fun b => map Offsets.e_trace (Offsets.b_entries b)) (Offsets.f_batches (lf_off v)).
